@@ -1,5 +1,5 @@
 """Property -> rules registry.  Rules are added here as they are built; a property without rules is not claimed."""
-from .rules import determinism, panics
+from .rules import determinism, panics, wiring
 
 
 def _thorough_only(rule):
@@ -12,6 +12,15 @@ def _thorough_only(rule):
 
 
 PROPS = {
+    "C01": {
+        "rules": [wiring.rule_wire_chain, wiring.rule_wire_intra],
+        "text": "Decides the structural clause 'obtained through the x86-64 path': the driver's stage chain parsed->checked->compiled->"
+                "focused->shrunk->linearized->compile::<x86-64>->into_x86_64_routine is wired as documented (each stage consumes the "
+                "previous stage's result, applies its transformation, returns that result), the argument count given to the C "
+                "driver is the one returned by the same compilation, and intra-stage orders (uniquify before focus, free_vars "
+                "before linearize, _Cont added) hold. Necessary condition of C01, not the behavioural equivalence itself.",
+        "assumptions": ["behavioural equivalence itself is the conjunction of C02-C06, C13, C14, C20 and of semantic facts not decided statically"],
+    },
     "C18": {
         "rules": [panics.rule_panic(("A", "B")), panics.rule_gact],
         "text": "Panic-site closure: every panic-capable construct reachable in the resolved whole-workspace call graph from the "
